@@ -27,6 +27,7 @@ type gen struct {
 	nextBatch    [2]int64
 	nCalls       [2]int64
 	slashVals    bool
+	jails        bool
 	calls        bool // outgoing bridge calls may be created (false while bridgeCallSlashing panics, C07)
 }
 
@@ -37,6 +38,7 @@ func newGen(r *lib.Rand, run *runner, idx int) *gen {
 	g.allowUnbond = true
 	g.allowReadd = idx%2 == 0
 	g.slashVals = idx%4 >= 1 // three quarters of the histories contain staking slashes of validators
+	g.jails = idx%3 == 0     // a third of them validators that are jailed / leave the bonded set / come back
 	for m := 0; m < 2; m++ {
 		for a := 0; a < nOracles; a++ {
 			g.diligent[m][a] = r.Chance(65)
@@ -146,6 +148,19 @@ func (g *gen) run() {
 				g.do(Op{K: "slashval", M: m, V: v, Amt: frac})
 				g.run_.rep.Count("validator-slashed-by-staking")
 			}
+		}
+		if g.slashVals && r.Chance(3) {
+			// ... or for an infraction one to three blocks back: unbonding entries and redelegations created since are cut
+			frac := []string{"50000000000000000", "100000000000000", "500000000000000000", "333333333333333333"}[r.Intn(4)]
+			if v := r.Intn(3); g.view(m).Vals[v][1].Cmp(bigOf(fx(2000))) >= 0 {
+				g.do(Op{K: "slashpast", V: v, Amt: frac, N: int64(1 + r.Intn(3))})
+				g.run_.rep.Count("validator-slashed-for-past-infraction")
+			}
+		}
+		if g.jails && r.Chance(4) {
+			// a validator is jailed and leaves the bonded set, or is unjailed and returns
+			g.do(Op{K: []string{"jail", "unjail", "unjail"}[r.Intn(3)], V: r.Intn(3)})
+			g.run_.rep.Count("validator-jail-or-unjail")
 		}
 		switch k := r.Intn(100); {
 		case k < 8:
